@@ -112,6 +112,14 @@ def configs(tier):
                 out.append(dict(ref=ref, m=m, ann=two, op="corpus", flags=list(fl), include_ref=True, bound=1,
                                 boundary=False))
     out.append(dict(ref="s2", m=0.7, ann=2, op="corpus", flags=["shift"], include_ref=False, bound=1, extra=["zz"]))
+    # ---- non-initial states: the same tool object already produced a corpus at another magnitude
+    for ref in ("s3", "t2"):
+        for m in (0.0, 0.3):
+            for fl in (["cat_shuffle"], ["shift"], ["false_neg"], ["split"], ["false_pos"], list(FLAGS)):
+                out.append(dict(ref=ref, m=m, ann=two, op="corpus", flags=fl, include_ref=False, bound=1,
+                                pre={"m": 1.0, "flags": fl}))
+            out.append(dict(ref=ref, m=m, ann=2, op="corpus", flags=["cat_shuffle"], include_ref=False, bound=1,
+                            pre={"m": 0.7, "flags": ["cat_shuffle", "shift"]}))
     return out
 
 
@@ -126,7 +134,9 @@ def make_fn_factory(cfg):
 
     def make_fn():
         ref = build_continuum(REFS[cfg["ref"]])
-        cst = pa.CorpusShufflingTool(cfg["m"], ref, **({"categories": cfg["extra"]} if cfg.get("extra") else {}))
+        pre = cfg.get("pre")
+        cst = pa.CorpusShufflingTool(pre["m"] if pre else cfg["m"], ref,
+                                     **({"categories": cfg["extra"]} if cfg.get("extra") else {}))
 
         def fn():
             orig_add = pa.Continuum.add
@@ -136,6 +146,10 @@ def make_fn_factory(cfg):
                 return orig_add(self, *a, **k)
             pa.Continuum.add = add
             try:
+                if pre:
+                    cst.corpus_shuffle(["p0"], **{f: True for f in pre["flags"]})
+                    cst.magnitude = cfg["m"]
+                    e1.mark("judged")
                 if cfg["op"] == "corpus":
                     kw = {f: True for f in cfg["flags"]}
                     c = cst.corpus_shuffle(cfg["ann"], include_ref=cfg.get("include_ref", False), **kw)
@@ -176,6 +190,10 @@ def judge_factory(cfg):
         if exc is not None:
             return [(f"shuffling tool raised: {exc}", None)]
         probs = []
+        for k in range(len(log) - 1, -1, -1):
+            if log[k]["fn"] == "mark" and log[k]["event"] == "judged":
+                log = log[k + 1:]  # only the requests of the call that is judged
+                break
         sample, cats = val
         anns = dict((a, set((u[0], u[1], u[2]) for u in us)) for a, us in sample["annotators"])
         want = sorted(req + ([ref_name] if inc else []))
